@@ -377,6 +377,7 @@ type ClientOpts struct {
 	BackoffMax  int64
 	Errors      bool
 	Reverse     bool
+	KeepAlive   bool // http: reuse connections
 	Extra       []jsonrpc.Option
 }
 
@@ -410,7 +411,7 @@ func (e *Env) NewClient(name string, srv *Server, o ClientOpts) (*Client, error)
 	case "ws":
 		c.Closer, err = jsonrpc.NewMergeClient(context.Background(), "ws://"+srv.Addr+"/rpc", "T", []interface{}{&c.P}, nil, opts...)
 	case "http":
-		c.Transport = &http.Transport{DialContext: e.N.Dialer(false), DisableKeepAlives: true}
+		c.Transport = &http.Transport{DialContext: e.N.Dialer(false), DisableKeepAlives: !o.KeepAlive, MaxIdleConnsPerHost: 4}
 		opts = append(opts, jsonrpc.WithHTTPClient(&http.Client{Transport: c.Transport}))
 		c.Closer, err = jsonrpc.NewMergeClient(context.Background(), "http://"+srv.Addr+"/rpc", "T", []interface{}{&c.P}, nil, opts...)
 	case "custom":
